@@ -73,6 +73,26 @@ def make_job(rng, jid, seqlen, kind=None, hasher=None, cap=None, pin=None, keys=
             "rec": ["snap", "site"]}
 
 
+def tree_focus_job(rng, jid):
+    """build a tree bin (colliding keys in a >= 64-bin table), then whole-map operations on it"""
+    u = gen.Uids()
+    kind = rng.choice(["map", "map", "set"])
+    keys = list(range(1, 20))
+    hs = dict(hashers(rng))
+    hname = rng.choice(["const", "highbits", "samebin"])
+    ops = [{"op": "insert", "k": k, "tag": 1, "n": u.next(), "pl": rng.randint(0, 5)} for k in rng.sample(keys, rng.randint(10, 16))]
+    names = ["clear", "retain", "retain", "retain_force", "remove", "compute", "iter", "len", "insert", "insert", "extend", "clone_eq", "get", "debug"]
+    for _ in range(rng.randint(4, 14)):
+        o = rand_op(rng, u, kind, keys)
+        want = rng.choice(names)
+        tries = 0
+        while o["op"] != want and tries < 60:
+            o = rand_op(rng, u, kind, keys)
+            tries += 1
+        ops.append(o)
+    return make_job(rng, jid, 0, kind=kind, hasher=(hname, hs[hname]), cap=rng.choice([43, 43, 0, 16]), keys=keys, ops=ops)
+
+
 def run(pid, tier, seed, njobs=None):
     t0 = time.time()
     verdict = lib.Verdict(pid)
@@ -80,7 +100,9 @@ def run(pid, tier, seed, njobs=None):
     n = njobs or (1500 if tier == "quick" else 20000)
     jobs = []
     for i in range(n):
-        if i % 3 == 0:
+        if i % 5 == 1:
+            jobs.append(tree_focus_job(rng, "c02-%05d" % i))
+        elif i % 3 == 0:
             keys = list(range(1, 14))   # enough colliding keys to build and shrink tree bins
             jobs.append(make_job(rng, "c02-%05d" % i, rng.randint(10, 40), keys=keys))
         else:
